@@ -18,7 +18,7 @@ from vlib.problems import Repr, base_tensors, run_functional, contraction, FUNCT
 from vlib.substrace import Recorder
 from props.c10 import INTENDED, PARAM_IDS
 
-KINDS = ["nn", "edit", "editnn", "mixed", "sib", "msib", "msib3", "nntied"]
+KINDS = ["nn", "edit", "editdep", "editnn", "mixed", "sib", "msib", "msib3", "nntied"]
 PARTS = {"111": [0, 0, 0], "112": [0, 0, 1], "121": [0, 1, 0], "122": [0, 1, 1], "123": [0, 1, 2]}
 
 
@@ -143,6 +143,75 @@ def fnkinds(ctx):
     return n
 
 
+def library_objects(ctx):
+    """xitorch's own EditableModules (Interp1D, SQuad) used as function objects of other functionals: the tensors they
+    hold (sample values, precomputed spline coefficients / weights) are object parameters like a user's"""
+    import numpy as np
+    import xitorch.integrate
+    import xitorch.interpolate
+    from scipy.interpolate import CubicSpline
+    n = 0
+    DT = torch.float64
+    xs = torch.tensor([0.0, 0.3, 0.45, 0.8, 1.0], dtype=DT)
+    xl, xu, nq = 0.1, 0.9, 30
+    tg, wg = np.polynomial.legendre.leggauss(nq)
+    xg = tg * 0.5 * (xu - xl) + 0.5 * (xu + xl)
+    wg = wg * 0.5 * (xu - xl)
+    with warnings.catch_warnings():
+        warnings.simplefilter("ignore")
+        for method, kw in (("linear", {}), ("cspline", {"bc_type": "natural"}), ("cspline", {"bc_type": "not-a-knot"})):
+            n += 1
+            ctx.case(key=("library-object", "Interp1D", method, kw.get("bc_type")))
+            why = None
+            try:
+                ys = torch.sin(3 * xs).clone().requires_grad_()
+                it = xitorch.interpolate.Interp1D(xs, ys, method=method, **kw)
+                val = xitorch.integrate.quad(it.__call__, torch.tensor([xl], dtype=DT), torch.tensor([xu], dtype=DT), n=nq)
+                g, = torch.autograd.grad(val.sum(), ys, allow_unused=True)
+                # reference: the interpolant is linear in y, so d/dy_j = sum_i w_i phi_j(x_i) with phi_j the interpolant of the j-th unit vector
+                ref = []
+                for j in range(len(xs)):
+                    e = np.zeros(len(xs))
+                    e[j] = 1.0
+                    phi = np.interp(xg, xs.numpy(), e) if method == "linear" else CubicSpline(xs.numpy(), e, bc_type=kw["bc_type"])(xg)
+                    ref.append(float((wg * phi).sum()))
+                ref = torch.tensor(ref, dtype=DT)
+                if g is None:
+                    why = "the sample values held by the interpolation object received no gradient"
+                elif not torch.allclose(g, ref, atol=1e-9, rtol=1e-9):
+                    why = "gradient w.r.t. the sample values %s, reference %s" % ([round(v, 8) for v in g.tolist()], [round(v, 8) for v in ref.tolist()])
+                elif abs(float(val) - float((ref * ys.detach()).sum())) > 1e-9:
+                    why = "value %.10f, reference %.10f" % (float(val), float((ref * ys.detach()).sum()))
+            except Exception as e:
+                why = "raised %s: %s" % (type(e).__name__, str(e)[:140])
+            if why:
+                ctx.violation("libobj/interp1d/%s" % method, "quad over Interp1D(%s%s).__call__ as the integrand: %s" % (method, kw, why), {"method": method})
+        for method in ("trapz", "simpson", "cspline"):
+            n += 1
+            ctx.case(key=("library-object", "SQuad", method))
+            why = None
+            try:
+                ys = (torch.cos(2 * xs) + 1.5).clone().requires_grad_()
+                sq = xitorch.integrate.SQuad(xs, method=method)
+
+                @xitorch.make_sibling(sq.integrate)
+                def resid(s_, y_):
+                    return (sq.integrate(y_ * s_) - 0.3).reshape(1)
+                root = xitorch.optimize.rootfinder(resid, torch.ones(1, dtype=DT), params=(ys,))
+                g, = torch.autograd.grad(root.sum(), ys)
+                I = sq.integrate(ys)
+                gref, = torch.autograd.grad((0.3 / I).sum(), ys)
+                if not torch.allclose(root.detach(), (0.3 / I).detach().reshape(1), atol=1e-9):
+                    why = "root %s, expected %s" % (root.tolist(), (0.3 / I).tolist())
+                elif not torch.allclose(g, gref, atol=1e-8, rtol=1e-8):
+                    why = "gradient %s, reference %s" % (g.tolist(), gref.tolist())
+            except Exception as e:
+                why = "raised %s: %s" % (type(e).__name__, str(e)[:140])
+            if why:
+                ctx.violation("libobj/squad/%s" % method, "rootfinder on a sibling of SQuad(%s).integrate: %s" % (method, why), {"method": method})
+    return n
+
+
 def run(ctx):
     thorough = ctx.tier == "thorough"
     torch.manual_seed(ctx.seed)
@@ -163,6 +232,7 @@ def run(ctx):
     ctx.expect_violation(t, cf, inv="EvalSeesRequested", label="deviation JacOwnList", workers=8, timeout=300)
 
     nk = fnkinds(ctx)
+    nk += library_objects(ctx)
     ctx.replayed = nk
     # 2. every functional on every representation, protocol validated by TLC, numeric verdicts in the final event
     traces = []
